@@ -266,6 +266,16 @@ type Outcome struct {
 // Finish classifies violations against the known findings, writes replay files and the evidence
 // file, prints the protocol lines and returns the exit code.
 func Finish(o *Outcome) int {
+	if replayWanted != "" {
+		for _, v := range o.Violations {
+			if v.FullSig() == replayWanted {
+				fmt.Printf("  %s\nREPRODUCED property=%s %s (deterministic enumeration re-run)\n", v.Detail, o.Property, replayWanted)
+				return 1
+			}
+		}
+		fmt.Printf("NOT REPRODUCED property=%s %s\n", o.Property, replayWanted)
+		return 0
+	}
 	findings := LoadFindings()
 	known := map[string]Finding{}
 	for _, f := range findings {
